@@ -31,6 +31,7 @@ def main(argv):
         print(r.stdout)
         return 2
     failed = 0
+    results = []
     try:
         for m in idx:
             if flt and flt not in m["patch"] and flt not in m.get("property", ""):
@@ -45,7 +46,7 @@ def main(argv):
                 continue
             for prop in m["property"].split(","):
                 t0 = time.time()
-                env = dict(os.environ, REMOC_SRC=SCRATCH)
+                env = dict(os.environ, REMOC_SRC=SCRATCH, VERIF_EVIDENCE_DIR="/tmp/verif-selftest-evidence")
                 r = subprocess.run([os.path.join(VERIF, "check"), prop, "quick"], env=env, text=True,
                                    stdout=subprocess.PIPE, stderr=subprocess.STDOUT)
                 viol = [l for l in r.stdout.splitlines() if l.startswith("VIOLATION")]
@@ -58,12 +59,23 @@ def main(argv):
                     ok = r.returncode == 0 and not viol
                 print(f"{'ok  ' if ok else 'FAIL'} {m['patch']} [{prop}] expect={m['expect']} rc={r.returncode} "
                       f"violations={len(viol)} ({time.time()-t0:.0f}s)")
+                import re as _re
+                caught = sorted({_re.sub(r".*/replay/(.*)\.json", r"\1", v) for v in viol})
+                if caught:
+                    print("     caught by: " + ", ".join(caught[:8]))
+                results.append({"patch": m["patch"], "property": prop, "expect": m["expect"], "ok": ok, "caught_by": caught})
                 if not ok:
                     failed += 1
                     print("   " + "\n   ".join(r.stdout.splitlines()[-12:]))
     finally:
         sh(f"git -C /repo worktree remove --force {SCRATCH}")
-        # evidence files were overwritten by the scratch runs: they must be regenerated against /repo
-        print("note: evidence/*.json now describe the scratch runs; re-run the property checks against /repo")
+        sh("rm -rf /tmp/verif-selftest-evidence")
+    rp = os.path.join(VERIF, "mutants", "last_results.json")
+    old = {}
+    if os.path.exists(rp):
+        old = {(r["patch"], r["property"]): r for r in json.load(open(rp))}
+    for r in results:
+        old[(r["patch"], r["property"])] = r
+    json.dump(sorted(old.values(), key=lambda r: (r["patch"], r["property"])), open(rp, "w"), indent=1)
     print(f"selftest: {failed} failure(s)")
     return 1 if failed else 0
